@@ -1,4 +1,5 @@
 """C05 - A YAML pipeline section builds the chain it describes"""
+import functools
 import os
 import tempfile
 
@@ -85,12 +86,21 @@ class RecPool(Pool):
         _record(self, None, args, kwargs)
 
 
+class Site:
+    """classes grouped below another class: dotted names with more than one attribute below the module"""
+    Deco = RecDeco2
+    class Inner:
+        Pool = RecPool
+        Ctrl = RecCtrl
+
+
 def extra_digest(content):
     EXTRA.append(content)
     return {"extra": content}
 '''
 MOD = "verifyaml_c05"
 CLASSES = {"VCtrl": "RecCtrl", "VDeco": "RecDeco", "VDeco2": "RecDeco2", "VPool": "RecPool"}
+NESTED = {"VCtrl": "Site.Inner.Ctrl", "VDeco2": "Site.Deco", "VPool": "Site.Inner.Pool"}  # other dotted names of the same classes
 _ready = False
 
 
@@ -114,7 +124,8 @@ KW = ["a", "b", "c", "interval", "name", "rate"]
 @st.composite
 def element(draw, cls):
     form = draw(st.sampled_from(["map", "map", "seq", "bare", "type", "type"]))
-    e = {"cls": cls, "form": form, "args": [], "kwargs": [], "flow": draw(st.booleans())}
+    e = {"cls": cls, "form": form, "args": [], "kwargs": [], "flow": draw(st.booleans()),
+         "nested_name": form == "type" and cls in NESTED and draw(st.booleans())}
     if form == "seq":
         e["args"] = draw(st.lists(values, max_size=3))
     elif form in ("map", "type"):
@@ -163,7 +174,7 @@ def document(draw):
 
 def element_node(e):
     if e["form"] == "type":
-        return {"m": [["__type__", {"s": f"{MOD}.{CLASSES[e['cls']]}"}]] + e["kwargs"], "flow": e["flow"]}
+        return {"m": [["__type__", {"s": f"{MOD}.{NESTED[e['cls']] if e.get('nested_name') else CLASSES[e['cls']]}"}]] + e["kwargs"], "flow": e["flow"]}
     if e["form"] == "bare":
         return {"t": e["cls"], "n": None}
     if e["form"] == "seq":
@@ -246,7 +257,7 @@ def run_case(doc) -> Result:
     specs = []
     for w in want_elems:
         if isinstance(w, dict):  # __type__ form
-            cls = getattr(mod, w["__type__"].rsplit(".", 1)[1])
+            cls = functools.reduce(getattr, w["__type__"].split(".")[1:], mod)
             specs.append((cls, [], {k: v for k, v in w.items() if k != "__type__"}))
         else:
             _e, tag, _form, args, kwargs = w
@@ -286,6 +297,8 @@ def run_case(doc) -> Result:
     forms = "".join({"map": "M", "seq": "S", "bare": "B", "type": "t"}[e["form"]] for e in doc["elems"])
     mixed = any(e["form"] == "type" for e in doc["elems"]) and any(e["form"] != "type" for e in doc["elems"])
     nested = any(has_tag(v) for e in doc["elems"] for v in e["args"] + [kv[1] for kv in e["kwargs"]])
+    res.cls("typed-yaml-values:" + str("!!binary" in text or "!!set" in text or "!!omap" in text or "!!pairs" in text),
+            "nested-type-name:" + str(any(e.get("nested_name") for e in doc["elems"])))
     res.cls("n:%d" % n, "mixed:" + str(mixed), "nested-tags:" + str(nested), "fail:" + str(doc["fail_at"] is not None),
             "forms:" + forms[:4])
     res.nontrivial = (n >= 3 and mixed) or nested or doc["fail_at"] is not None
